@@ -1,7 +1,7 @@
 (* Verdicts: what an observed end of run (OEnd n v) implies about the jobs of n.
    Properties C02 (second half), C04, parts of C09 and C10. *)
 From AJ Require Import Common.Util Run.RModel Run.RFacts Run.RFacts2 Run.RInv Run.RInv2 Run.RInv3 Run.RInv4
-  Run.RMon.
+  Run.RMon Run.RProps1.
 
 (* ------------------------------------------------------------------ outputs of the reactions *)
 
@@ -332,3 +332,90 @@ Qed.
 
 Theorem chk_end_monitor lvl c h : wf c = true -> accept lvl c h = true -> mon_ok chk_end c h = true.
 Proof. intros W. apply mon_sound. intros h0 s e s' Hr Hs. eapply chk_end_holds; eauto. Qed.
+
+(* ------------------------------------------------------------------ readable forms, flags *)
+
+Lemma end_ok_true_meaning c s n : members c n <> [] -> nfinite c n <> 0 ->
+  end_ok c s n VTrue = true ->
+  forall x, In x (members c n) -> j_forever (jc c x) = false -> is_done (st (Jb s x)) = true.
+Proof.
+  intros Hne Hnz H x Hx Hf. unfold end_ok in H.
+  destruct (members c n) as [|m0 ms] eqn:Em; [contradiction|].
+  apply Nat.eqb_neq in Hnz. rewrite Hnz in H. apply andb_true_iff in H. destruct H as [H _].
+  unfold fin_all in H. rewrite forallb_forall in H. rewrite Em in H. specialize (H x Hx).
+  rewrite Hf in H. exact H.
+Qed.
+
+Lemma end_ok_meaning c s n v : members c n <> [] -> nfinite c n <> 0 -> v <> VCancelled ->
+  end_ok c s n v = true ->
+  (v = VTrue <-> fin_all c s n = true /\ critx c s n = false) /\
+  (v = VFalse -> noncrit c n = true) /\
+  (forall t, v = VRaise t -> noncrit c n = false /\
+     (critx c s n = true -> raised_by_critical c s n t = true) /\
+     (critx c s n = false -> t = tag_timeout n)).
+Proof.
+  intros Hne Hnz Hvc H. unfold end_ok in H.
+  destruct (members c n) as [|m0 ms] eqn:Em; [contradiction|].
+  apply Nat.eqb_neq in Hnz. rewrite Hnz in H.
+  destruct v as [| |t|]; [| | |contradiction].
+  - apply andb_true_iff in H. destruct H as [H1 H2]. apply negb_true_iff in H2.
+    split; [split; auto|]. split; [discriminate|]. intros t Ht. discriminate.
+  - apply andb_true_iff in H. destruct H as [H1 H2]. apply negb_true_iff in H1.
+    split; [|split; [auto|intros t Ht; discriminate]].
+    split; [discriminate|]. intros [A B]. rewrite A, B in H1. discriminate.
+  - rewrite !andb_true_iff in H. destruct H as [[H1 H2] H3]. apply negb_true_iff in H1, H2.
+    split; [|split; [discriminate|]].
+    + split; [discriminate|]. intros [A B]. rewrite A, B in H1. discriminate.
+    + intros t' Ht. inversion Ht; subst t'. split; [exact H2|]. split; intros Hc; rewrite Hc in H3.
+      * exact H3.
+      * apply Nat.eqb_eq. exact H3.
+Qed.
+
+Lemma finish_run_flags c n w r cu s :
+  let s' := fst (finish_run c n w r cu s) in
+  fto (Rn s' n) = match w with WTimeout => true | _ => fto (Rn s n) end /\
+  fcr (Rn s' n) = match w with WCritical => true | _ => fcr (Rn s n) end /\
+  (verdict_of c n w cu = VTrue <-> w = WSuccess).
+Proof.
+  cbn zeta. unfold finish_run. cbn [fst].
+  match goal with |- context [job_leave c n ?x ?S0] =>
+    pose proof (Rn_job_leave_q c n x S0 n) as (_ & _ & _ & _ & _ & _ & H7 & H8 & _) end.
+  rewrite H7, H8, Rn_setR_same. cbn [fto fcr].
+  split; [reflexivity|]. split; [reflexivity|].
+  unfold verdict_of. destruct w; split; intros H; try reflexivity; try discriminate;
+    destruct ((Nat.eqb n 0 && pure_root c) || negb (j_crit (jc c n))); discriminate.
+Qed.
+
+(* the two failure flags are clear as long as the run is not over *)
+Definition flags_inv (s : state) : Prop :=
+  forall n, ph (Rn s n) <> POver -> fto (Rn s n) = false /\ fcr (Rn s n) = false.
+
+Lemma flags_step lvl c s e s' : wf c = true -> Inv1 c s -> flags_inv s ->
+  step lvl c s e = Some s' -> flags_inv s'.
+Proof.
+  intros W I1 F Hs n Hno.
+  destruct (R_effect lvl c s e s' W (i_pend c s I1) Hs n)
+    as [Hq _|_ _ _ _ _ _ _ _ _ Bf1 Bf2 _ _ _|_ A1 A2 A3 _ A4 A5 A6 [K|(Hph & d & _ & _ & U)] A8].
+  - destruct Hq as (Q1 & _ & _ & _ & _ & _ & Q7 & Q8 & _). rewrite Q7, Q8. apply F. rewrite <- Q1. exact Hno.
+  - auto.
+  - destruct (A8 Hno) as [E1 E2]. rewrite E1, E2. apply F.
+    destruct K as (_ & _ & _ & _ & _ & _ & _ & K8 & _). exact K8.
+  - destruct (A8 Hno) as [E1 E2]. rewrite E1, E2. apply F. rewrite Hph. discriminate.
+Qed.
+
+Theorem flags_clear lvl c h s n : wf c = true -> Reach lvl c h s ->
+  ph (Rn s n) <> POver -> fto (Rn s n) = false /\ fcr (Rn s n) = false.
+Proof.
+  intros W Hr. revert n.
+  assert (H : Inv1 c s /\ flags_inv s).
+  { revert h s Hr. apply reach_ind.
+    - split; [apply Inv1_init|]. intros n _. split; reflexivity.
+    - intros h s e s' _ [I1 F] Hs. split; [eapply Inv1_step; eauto|eapply flags_step; eauto]. }
+  destruct H as [_ F]. exact F.
+Qed.
+
+Theorem C02_monitors lvl c h : wf c = true -> accept lvl c h = true ->
+  mon_ok RProps1.chk02a c h = true /\ mon_ok chk_end c h = true.
+Proof.
+  intros W Ha. split; [apply (RProps1.C02a_monitor lvl); auto|apply (chk_end_monitor lvl); auto].
+Qed.
